@@ -1,3 +1,4 @@
+import MontePyVerif.Gen.Reader
 import MontePyVerif.Lemmas.Queue
 import MontePyVerif.Lemmas.Paths
 import MontePyVerif.Lemmas.Flatten
@@ -11,6 +12,15 @@ Part 1 (this section): the queue mechanics of the model, for **every** file syst
 -/
 namespace MontePyVerif.C20
 open MontePyVerif.Reader
+
+/-- **C20_tables**: the facts of the source that the model builds in, as the translator finds them in the working
+    tree now (`Gen/Reader.lean`, `tools/extractors/reader.py`): the members of `BlockType` and their values are the
+    model's (`read_data` computes `BlockType(first_block + block_counter)`), `read` and `file` are lexer keywords
+    (the read parser's `KEYWORD` rule), and `read_input` defaults to `replace=True` (the only mode modelled). -/
+theorem C20_tables :
+    Gen.blockTypes = [("CELL", BlockType.cell.value), ("SURFACE", BlockType.surface.value), ("DATA", BlockType.data.value)] ∧
+    (Gen.blockTypes.map (fun p => (BlockType.ofValue p.2).value)) = Gen.blockTypes.map (·.2) ∧
+    Gen.readIsKeyword = true ∧ Gen.fileIsKeyword = true ∧ Gen.readInputReplaceDefault = true := by decide
 
 /-- the events of the top-level file after its front matter -/
 def mainEvents (ll : Nat) (main : Str) (bytes : List Nat) : List Event :=
